@@ -180,10 +180,9 @@ func (r *Recorder) Put(ctx context.Context, mode storage.ModePut, chs ...boson.C
 	if r.on {
 		root := sctx.GetRootHash(ctx)
 		for i, c := range chs {
+			// chunk bytes are not kept: no check reads them, and records stay reachable for the life of the
+			// process through the node's background goroutines, which have no way to stop (6.5 MB per case)
 			var data []byte
-			if !r.AddrOnly {
-				data = append([]byte(nil), c.Data()...)
-			}
 			r.Puts = append(r.Puts, PutRecord{Mode: mode, Root: root.String(), Addr: c.Address().String(), Data: data,
 				Existed: err == nil && i < len(exist) && exist[i]})
 		}
